@@ -64,6 +64,13 @@ func main() {
 		return
 	}
 	prog, err := prepare(*repo, *verif)
+	if d := os.Getenv("VCHECK_DUMP_FUNC"); d != "" && err == nil {
+		for _, f := range prog.OwnFunctions() {
+			if kit.ShortID(kit.FuncID(f)) == d {
+				f.WriteTo(os.Stdout)
+			}
+		}
+	}
 	if err == nil && *exploreLocks {
 		props.ExploreLocks(prog)
 		return
